@@ -1693,6 +1693,11 @@ NCvario(NC *handle, int varid, const long *start, const long *edges, void *value
         iocount *= *edp;
     /* now edp = edp0 - 1 */
 
+    /* An empty edge selects nothing.  A transfer of zero elements must not be
+       issued: Hread/Hwrite take a zero length as "up to the end of the element". */
+    if (iocount == 0)
+        return 0;
+
     { /* inline */
         long          coords[H4_MAX_VAR_DIMS], upper[H4_MAX_VAR_DIMS];
         long         *cc;
